@@ -121,7 +121,7 @@ pub struct Object {
 impl FromMeta<'_> for Object {
     fn from_meta(meta: &Sp<Meta>) -> Result<Self, FromMetaError<'_>> {
         meta.parse_object(|m| Ok(Object {
-            layer: m.expect_renamed_field::<i32>("unknown", "layer")? as u16,
+            layer: m.expect_renamed_field::<u16>("unknown", "layer")?,
             pos: m.expect_field("pos")?,
             size: m.expect_field("size")?,
             quads: m.expect_field("quads")?,
@@ -165,14 +165,14 @@ impl FromMeta<'_> for Quad {
     fn from_meta(meta: &Sp<Meta>) -> Result<Self, FromMetaError<'_>> {
         meta.parse_variant()?
             .variant("rect", |m| Ok(Quad {
-                anm_script: m.expect_field::<i32>("anm_script")? as u16,
+                anm_script: m.expect_field::<u16>("anm_script")?,
                 extra: QuadExtra::Rect {
                     pos: m.expect_field("pos")?,
                     size: m.expect_field("size")?,
                 },
             }))
             .variant("strip", |m| Ok(Quad {
-                anm_script: m.expect_field::<i32>("anm_script")? as u16,
+                anm_script: m.expect_field::<u16>("anm_script")?,
                 extra: QuadExtra::Strip {
                     start: m.expect_field("start")?,
                     end: m.expect_field("end")?,
@@ -218,7 +218,7 @@ impl FromMeta<'_> for Instance {
     fn from_meta(meta: &Sp<Meta>) -> Result<Self, FromMetaError<'_>> {
         meta.parse_any_variant(|ident, meta| Ok(Instance {
             object: ident.clone(),
-            unknown: meta.get_field::<i32>("unknown")?.unwrap_or(256) as u16,
+            unknown: meta.get_field::<u16>("unknown")?.unwrap_or(256),
             pos: meta.expect_field("pos")?,
         }))
     }
